@@ -161,6 +161,75 @@ fn randoms(ctx: &Ctx, idx: u64) {
     }
 }
 
+/// the random helpers on caller-supplied toy special-RSA moduli, where rare events become frequent:
+/// every output of random_qr / Bases::generate must be a quadratic residue in (1, N) coprime to N
+fn toy_moduli(ctx: &Ctx, idx: u64) {
+    use zkryptium::utils::random::{random_number, random_prime, random_qr};
+    let _ = idx;
+    let draws = ctx.t(400, 4000);
+    for (p, q) in [(5u32, 7u32), (7, 11), (11, 23), (23, 47), (47, 59), (59, 83), (83, 107), (227, 263)] {
+        let n = Integer::from(p * q);
+        let squares: std::collections::HashSet<u32> = (1..p * q).filter(|x| gcd_u32(*x, p * q) == 1).map(|x| (x * x) % (p * q)).collect();
+        let case = format!("toy-modulus/{}", p * q);
+        ctx.distinct(&case);
+        let mut seen = std::collections::HashSet::new();
+        for k in 0..draws {
+            let x = if k % 2 == 0 {
+                ctx.call("random_qr", &case, None, || Ok::<_, ()>(random_qr(&n))).value
+            } else {
+                let pk = CL03PublicKey::new(n.clone(), Integer::from(4), Integer::from(9));
+                ctx.call("Bases::generate", &case, None, || Ok::<_, ()>(Bases::generate(&pk, 1))).value.map(|b| b.0[0].clone())
+            };
+            let Some(x) = x else {
+                ctx.violation("C18:random_qr-panicked", json!({"N":p*q}));
+                continue;
+            };
+            let xv = x.to_u32().unwrap_or(0);
+            if !(xv > 1 && xv < p * q) || gcd_u32(xv, p * q) != 1 || !squares.contains(&xv) {
+                ctx.violation("C18:random_qr-ill-formed", json!({"N":p*q,"value":xv,"why": if xv <= 1 {"not greater than 1"} else if gcd_u32(xv, p*q) != 1 {"not coprime"} else {"not a quadratic residue"}}));
+            }
+            seen.insert(xv);
+        }
+        if seen.len() < 2 {
+            ctx.violation("C18:random_qr-degenerate", json!({"N":p*q,"distinct":seen.len()}));
+        }
+        for _ in 0..draws / 8 {
+            if let Some(x) = ctx.call("random_number", &case, None, || Ok::<_, ()>(random_number(n.clone()))).value {
+                if x < 0 || x >= n {
+                    ctx.violation("C18:random_number-out-of-range", json!({"N":p*q,"value":x.to_string()}));
+                }
+            }
+        }
+    }
+    for bits in [2u32, 3, 8, 16, 64, 258] {
+        let case = format!("random_prime/{}", bits);
+        ctx.distinct(&case);
+        for _ in 0..ctx.t(40, 300) {
+            match ctx.call("random_prime", &case, None, || Ok::<_, ()>(random_prime(bits))).value {
+                Some(x) => {
+                    // next_prime of an exactly n-bit number: at least n bits, and prime (own trial division / Fermat + MR offline for big)
+                    if x.significant_bits() < bits || (bits <= 16 && !is_prime_u32(x.to_u32().unwrap_or(0))) {
+                        ctx.violation("C18:random_prime-ill-formed", json!({"bits":bits,"value":x.to_string()}));
+                    }
+                    if bits > 16 {
+                        RECORDS_PRIMES.lock().unwrap().push(x.to_string_radix(16));
+                    }
+                }
+                None => ctx.violation("C18:random_prime-panicked", json!({"bits":bits})),
+            }
+        }
+    }
+}
+
+pub static RECORDS_PRIMES: Mutex<Vec<String>> = Mutex::new(Vec::new());
+
+fn gcd_u32(a: u32, b: u32) -> u32 {
+    if b == 0 { a } else { gcd_u32(b, a % b) }
+}
+fn is_prime_u32(n: u32) -> bool {
+    n >= 2 && (2..=((n as f64).sqrt() as u32)).all(|d| n % d != 0)
+}
+
 pub fn scenarios(ctx: &Ctx) -> Vec<Scenario> {
     use zkryptium::cl03::ciphersuites::{CL1024Sha256, CL2048Sha256, CL3072Sha256};
     let mut v = Vec::new();
@@ -174,6 +243,7 @@ pub fn scenarios(ctx: &Ctx) -> Vec<Scenario> {
         v.push(scenario("CL1024/key", move |c| keys::<CL1024Sha256>(c, i, i < ctx_own(c))));
     }
     v.push(scenario("randoms", |c| randoms(c, 0)));
+    v.push(scenario("toy-moduli", |c| toy_moduli(c, 0)));
     v
 }
 
@@ -184,4 +254,5 @@ fn ctx_own(c: &Ctx) -> u64 {
 pub fn finish(ctx: &Ctx) {
     let recs = RECORDS.lock().unwrap();
     ctx.set_extra("c18_records", json!(*recs));
+    ctx.set_extra("c18_primes", json!(*RECORDS_PRIMES.lock().unwrap()));
 }
